@@ -78,10 +78,13 @@ check("C21", "repro", "exploration",
 
 check("C22", "mpisim", "exploration",
       "Scripts exercising sample lists (W1), SampledKLEnergy MGVI/geoVI with constants/point estimates/mirroring (W2), "
-      "StochasticEnergyAdapter (W3) and full optimize_kl runs incl. output directory on a simulated disk (W4) are executed "
-      "from their first line by N=1..6 thread-ranks behind a simulated communicator, under seeded schedules and "
-      "eager/rendezvous/mixed send semantics, including more ranks than samples and arbitrary ordered partitions with empty "
-      "ranks; every named result component on every rank must be bit-identical to the comm=None run. Sampled, not exhaustive.",
+      "StochasticEnergyAdapter (W3), full optimize_kl runs incl. output directory on a simulated disk, transitions, "
+      "fresh_stochasticity callables and HDF5 operator exports (W4), and runs stopped on N tasks and resumed by a new job on M "
+      "tasks (W5) are executed from their first line by N=1..6 thread-ranks behind a simulated communicator, under seeded "
+      "schedules and eager/rendezvous/mixed send semantics, including more ranks than samples and arbitrary ordered partitions "
+      "with empty ranks; every named result component on every rank AND the canonical content of every output file (sample and "
+      "history pickles, RNG state, marker, minisanity report, HDF5 datasets) must be bit-identical to the comm=None run. "
+      "Sampled, not exhaustive.",
       "Trusted: SimComm's reading of MPI-3.1/mpi4py; rank isolation inside one interpreter (RNG stack swapped at every "
       "hand-off); shared POSIX file system semantics of SimFS. Real MPI (the quantifier's wording) is not loadable in this "
       "sandbox; simulated ranks stand in for it.",
